@@ -71,3 +71,25 @@ service Lab {
   map<double, Sample> measure(1: set<double> at, 2: Choice how) throws (1: Failure failure)
   oneway void note(1: binary text)
 }
+
+// Declaration order is not identifier order.
+struct OutOfOrder {
+  7: optional i32 seventh
+  2: optional string second
+  9: required i64 ninth
+  1: optional list<i32> first
+  4: optional Choice fourth
+}
+
+struct HighestFirst {
+  30: required string thirty
+  20: optional double twenty
+  10: optional set<string> ten
+}
+
+union OddOrder {
+  5: i32 five
+  3: string three
+  8: list<bool> eight
+  1: binary one
+}
